@@ -391,6 +391,86 @@ Proof.
     + rewrite app_nil_r, !entries_app. cbn [entries fst]. reflexivity.
 Qed.
 
+(* ---------------------------------------------------------------- the searcher's position cache *)
+
+Definition nm (f : file) : Z * Z := (f_day f, f_seq f).
+Definition pair_lt (a b : Z * Z) : Prop := fst a < fst b \/ (fst a = fst b /\ snd a < snd b).
+
+Lemma name_lt_pair a b : name_lt a b <-> pair_lt (nm a) (nm b).
+Proof. unfold name_lt, file_ltb, pair_lt, nm. cbn [fst snd]. lia. Qed.
+
+Lemma pair_lt_trans a b d : pair_lt a b -> pair_lt b d -> pair_lt a d.
+Proof. unfold pair_lt. lia. Qed.
+
+Definition cache_rel (n : Z * Z) (sec : Z) (n' : Z * Z) (gs : list group) : Prop :=
+  pair_lt n' n -> Forall (fun s => s < sec) (map fst gs).
+
+(* the cached position (file name, idx offset, second) is either unusable or sound: its offset is a
+   multiple of 16, its file is not newer than the current one, and every group of every older
+   file is before the cached second *)
+Definition CInv (names : list (Z * Z)) (G : list (list group)) (cur : Z * Z) (st : sstate) : Prop :=
+  match s_name st with
+  | None => True
+  | Some n =>
+      ~ pair_lt cur n /\ (exists j, s_off st = 16 * Z.of_nat j) /\
+      Forall2 (cache_rel n (s_sec st)) names G
+  end.
+
+Lemma CInv_roll names G cur st k new : CInv names G cur st -> pair_lt cur new ->
+  CInv (skipn k names ++ [new]) (skipn k G ++ [[]]) new st.
+Proof.
+  unfold CInv. destruct (s_name st) as [n|]; [|tauto]. intros (H1 & H2 & H3) Hlt.
+  assert (Hn : ~ pair_lt new n) by (intros H; apply H1; eapply pair_lt_trans; eassumption).
+  split; [exact Hn|]. split; [exact H2|]. apply Forall2_snoc; [apply Forall2_skipn; exact H3|].
+  intros H. tauto.
+Qed.
+
+Lemma CInv_last ni Gi gs gs' cur st : CInv (ni ++ [cur]) (Gi ++ [gs]) cur st -> CInv (ni ++ [cur]) (Gi ++ [gs']) cur st.
+Proof.
+  unfold CInv. destruct (s_name st) as [n|]; [|tauto]. intros (H1 & H2 & H3).
+  split; [exact H1|]. split; [exact H2|]. apply Forall2_snoc_inv in H3. destruct H3 as [H3 _].
+  apply Forall2_snoc; [exact H3|]. intros H. tauto.
+Qed.
+
+Lemma roll_names c w ts G : SInv w G -> w_day w <= day_of c ts ->
+  map nm (w_fs (roll c w ts)) =
+    skipn (Z.to_nat (lenZ G - c_max_files c + 1)) (map nm (w_fs w)) ++ [(w_day (roll c w ts), w_seq (roll c w ts))] /\
+  pair_lt (w_day w, w_seq w) (w_day (roll c w ts), w_seq (roll c w ts)).
+Proof.
+  intros (HF & Hs & init & cur & E & Ed & Eq) Hd. unfold roll.
+  rewrite (next_name_sorted c w ts init cur E Hs) by lia.
+  set (s := if f_day cur =? day_of c ts then f_seq cur + 1 else 0).
+  set (d := day_of c ts). cbn [w_day w_seq w_fs].
+  rewrite (remove_deprecated_sorted c _ Hs). rewrite (Forall2_lenZ _ _ _ HF).
+  set (n := lenZ G - c_max_files c + 1).
+  assert (Hc : name_lt cur (mkFile d s [] [])).
+  { unfold name_lt, file_ltb, s, d. cbn [f_day f_seq]. destruct (f_day cur =? day_of c ts) eqn:E1; lia. }
+  assert (Hnew : Forall (fun f => name_lt f (mkFile d s [] [])) (w_fs w)).
+  { rewrite E. rewrite E in Hs. apply names_sorted_snoc_inv in Hs. destruct Hs as [_ Hl].
+    apply Forall_app. split; [|constructor; [exact Hc|constructor]].
+    eapply Forall_impl; [|exact Hl]. intros f Hf. cbn beta in Hf. exact (name_lt_trans _ _ _ Hf Hc). }
+  assert (Hnew' : Forall (fun f => name_lt f (mkFile d s [] [])) (dropZ n (w_fs w))) by (apply Forall_skipn; exact Hnew).
+  assert (Hex : existsb (name_is d s) (dropZ n (w_fs w)) = false).
+  { destruct (existsb (name_is d s) (dropZ n (w_fs w))) eqn:Ex; [|reflexivity]. apply existsb_exists in Ex.
+    destruct Ex as (x & Hx & Hn). rewrite Forall_forall in Hnew'. specialize (Hnew' x Hx).
+    apply name_lt_neq in Hnew'. cbn [f_day f_seq] in Hnew'. destruct Hnew' as [Hn' _]. congruence. }
+  unfold create_file. rewrite Hex. split.
+  - rewrite map_app. unfold dropZ. rewrite skipn_map. reflexivity.
+  - apply name_lt_pair in Hc. unfold nm in Hc. cbn [f_day f_seq] in Hc. rewrite <- Ed, <- Eq. exact Hc.
+Qed.
+
+Lemma append_names w data idx : map nm (w_fs (append_cur w data idx)) = map nm (w_fs w).
+Proof.
+  unfold append_cur. cbn [w_fs]. rewrite map_map. apply map_ext. intros f.
+  destruct (name_is (w_day w) (w_seq w) f); reflexivity.
+Qed.
+
+Lemma SInv_names w G : SInv w G -> exists ni, map nm (w_fs w) = ni ++ [(w_day w, w_seq w)].
+Proof.
+  intros (_ & _ & init & cur & E & Ed & Eq). exists (map nm init). rewrite E, map_app. cbn [map]. unfold nm.
+  rewrite Ed, Eq. reflexivity.
+Qed.
+
 (* ---------------------------------------------------------------- the writer invariant *)
 
 Definition two62 : Z := 4611686018427387904.
@@ -440,14 +520,20 @@ Lemma is_new_day_spec c last sec : 0 <= last + c_tz c -> last <= sec ->
   is_new_day c last sec = ((sec + c_tz c) / 86400 >? (last + c_tz c) / 86400).
 Proof. intros H1 H2. unfold is_new_day. rewrite !Z.quot_div_nonneg by lia. reflexivity. Qed.
 
-Lemma w_write_inv c t0 w g ts tstr items : good_cfg c t0 -> good_op (Write ts tstr items) ->
-  WInv c w g -> WInv c (w_write c w ts tstr items) (g_write c g ts tstr items).
+Definition CI (w : wstate) (g : gstate) (st : sstate) : Prop :=
+  CInv (map nm (w_fs w)) (gs_files g) (w_day w, w_seq w) st.
+
+Lemma w_write_inv c t0 w g st ts tstr items : good_cfg c t0 -> good_op (Write ts tstr items) ->
+  WInv c w g -> CI w g st ->
+  WInv c (w_write c w ts tstr items) (g_write c g ts tstr items) /\
+  CI (w_write c w ts tstr items) (g_write c g ts tstr items) st.
 Proof.
-  intros (Hm & _ & _) [Hv Hsz] HW. unfold w_write, g_write.
-  destruct items as [|it0 its0]; [exact HW|]. set (items := it0 :: its0) in *.
-  destruct (ts <=? 0) eqn:Ets; [exact HW|]. pose proof HW as HW0.
+  intros (Hm & _ & _) [Hv Hsz] HW HC. unfold w_write, g_write.
+  destruct items as [|it0 its0]; [split; [exact HW|exact HC]|]. set (items := it0 :: its0) in *.
+  destruct (ts <=? 0) eqn:Ets; [split; [exact HW|exact HC]|]. pose proof HW as HW0.
   destruct HW as (HS & HT & El & Ed & Hz & Hl0 & Hcs). rewrite <- El.
-  set (sec := ts / 1000). destruct (sec <? w_latest w) eqn:Eold; [exact HW0|]. clear HW0.
+  set (sec := ts / 1000). destruct (sec <? w_latest w) eqn:Eold; [split; [exact HW0|exact HC]|]. clear HW0.
+  unfold CI in *.
   assert (Hday : day_of c ts = (sec + c_tz c) / 86400) by reflexivity.
   assert (Hsec64 : 0 <= sec < two64).
   { inversion Hv as [|? ? Hv0 _]; subst. destruct Hv0 as [Hts _]. cbn [stamp i_ts] in Hts. unfold lim64 in Hts.
@@ -457,19 +543,22 @@ Proof.
   set (w1 := if b1 then roll c w ts else w).
   set (g1 := if b1 then g_roll c g else g).
   assert (H1 : SInv w1 (gs_files g1) /\ TInv (gs_latest g) (gs_files g1) /\ w_latest w1 = w_latest w /\
-               w_day w1 = (sec + c_tz c) / 86400 /\ lenZ (enc_lines (gitems (g_cur g1))) < c_max_size c).
+               w_day w1 = (sec + c_tz c) / 86400 /\ lenZ (enc_lines (gitems (g_cur g1))) < c_max_size c /\
+               CInv (map nm (w_fs w1)) (gs_files g1) (w_day w1, w_seq w1) st).
   { unfold w1, g1. destruct b1 eqn:Eb1.
     - unfold b1 in Eb1. rewrite is_new_day_spec in Eb1 by lia.
       destruct (roll_SInv c w ts _ HS) as (Ha & Hb & Hc); [rewrite Hday; lia|].
+      destruct (roll_names c w ts _ HS) as [En Hlt]; [rewrite Hday; lia|].
       unfold g_roll, g_cur, dropZ in *. cbn [gs_files gs_latest].
       split; [exact Ha|]. split; [apply TInv_roll; exact HT|]. split; [exact Hc|]. split; [rewrite Hb; exact Hday|].
-      rewrite last_last. cbn. unfold lenZ. cbn. lia.
-    - split; [exact HS|]. split; [exact HT|]. split; [reflexivity|]. split; [|exact Hcs]. unfold b1 in Eb1.
+      split; [rewrite last_last; cbn; unfold lenZ; cbn; lia|].
+      rewrite En. eapply CInv_roll; [exact HC|exact Hlt].
+    - split; [exact HS|]. split; [exact HT|]. split; [reflexivity|]. split; [|split; [exact Hcs|exact HC]]. unfold b1 in Eb1.
       destruct (sec >? w_latest w) eqn:Egt; cbn [andb] in Eb1.
       + rewrite is_new_day_spec in Eb1 by lia. rewrite Ed.
         assert ((w_latest w + c_tz c) / 86400 <= (sec + c_tz c) / 86400) by (apply Z.div_le_mono; lia). lia.
       + assert (sec = w_latest w) by lia. rewrite Ed. congruence. }
-  destruct H1 as (HS1 & HT1 & El1 & Ed1 & Hcs1).
+  destruct H1 as (HS1 & HT1 & El1 & Ed1 & Hcs1 & HC1).
   fold w1. fold g1.
   destruct (SInv_snoc_ghost _ _ HS1) as (Gi & gs & EG).
   (* phase 2: index entry and lines *)
@@ -479,7 +568,7 @@ Proof.
     rewrite Forall_forall in Hv. split; [apply Hv; exact Hy|reflexivity]. }
   assert (Hne : its <> []) by (unfold its, items; discriminate).
   assert (Hcur1 : g_cur g1 = gs) by (unfold g_cur; rewrite EG; apply last_last).
-  rewrite Hcur1 in Hcs1. rewrite EG in HS1, HT1.
+  rewrite Hcur1 in Hcs1. rewrite EG in HS1, HT1, HC1.
   unfold two62 in *.
   assert (Hsz2 : lenZ (enc_lines (gitems gs)) + lenZ (enc_lines its) < two63).
   { Transparent two63. unfold two63. Opaque two63. fold its in Hsz. lia. }
@@ -489,6 +578,11 @@ Proof.
   set (pos := cur_size w1).
   set (w2 := if (sec >? w_latest w) || (pos =? 0) then append_cur w1 [] (be64 sec ++ be64 pos) else w1).
   set (w3 := append_cur w2 (enc_lines its) []).
+  assert (HC3 : CInv (map nm (w_fs w3)) (Gi ++ [g_add (w_latest w) sec its gs]) (w_day w3, w_seq w3) st).
+  { destruct (SInv_names _ _ HS1) as [ni Eni].
+    assert (E3 : map nm (w_fs w3) = ni ++ [(w_day w1, w_seq w1)] /\ w_day w3 = w_day w1 /\ w_seq w3 = w_seq w1).
+    { unfold w3, w2. destruct ((sec >? w_latest w) || (pos =? 0)); rewrite ?append_names; auto. }
+    destruct E3 as (-> & -> & ->). rewrite Eni in HC1. eapply CInv_last. exact HC1. }
   assert (HS3 : SInv w3 (Gi ++ [g_add (w_latest w) sec its gs]) /\ w_day w3 = w_day w1 /\ w_latest w3 = w_latest w1).
   { unfold w3, w2. fold pos in Ecs1. rewrite <- Ecs1 in Een.
     destruct ((sec >? w_latest w) || (pos =? 0)) eqn:Ec.
@@ -518,11 +612,16 @@ Proof.
   assert (Efin : fin = sec) by (unfold fin; destruct (sec >? w_latest w) eqn:Ef; lia).
   destruct (cur_size w3 >=? c_max_size c) eqn:Esz.
   - destruct (roll_SInv c w3 ts _ HS3) as (Ha & Hb & Hc); [rewrite Ed3, Ed1, Hday; lia|].
+    destruct (roll_names c w3 ts _ HS3) as [En Hlt]; [rewrite Ed3, Ed1, Hday; lia|].
     unfold WInv, g_roll, g_cur, dropZ in *. cbn [gs_files gs_latest w_fs w_day w_seq w_latest]. rewrite Eg2, Efin.
-    split; [exact Ha|]. split; [apply TInv_roll; exact HT2|]. split; [reflexivity|].
-    split; [rewrite Hb; exact Hday|]. split; [lia|]. split; [lia|].
-    rewrite last_last. cbn. unfold lenZ. cbn. lia.
+    split.
+    + split; [exact Ha|]. split; [apply TInv_roll; exact HT2|]. split; [reflexivity|].
+      split; [rewrite Hb; exact Hday|]. split; [lia|]. split; [lia|].
+      rewrite last_last. cbn. unfold lenZ. cbn. lia.
+    + rewrite En. eapply CInv_roll; [exact HC3|exact Hlt].
   - unfold WInv, g_cur in *. cbn [gs_files gs_latest w_fs w_day w_seq w_latest]. rewrite Efin.
-    split; [rewrite Eg2; exact HS3|]. split; [rewrite Eg2; exact HT2|]. split; [reflexivity|].
-    split; [rewrite Ed3, Ed1; reflexivity|]. split; [lia|]. split; [lia|]. lia.
+    split.
+    + split; [rewrite Eg2; exact HS3|]. split; [rewrite Eg2; exact HT2|]. split; [reflexivity|].
+      split; [rewrite Ed3, Ed1; reflexivity|]. split; [lia|]. split; [lia|]. lia.
+    + rewrite Eg2. exact HC3.
 Qed.
